@@ -93,13 +93,14 @@ def val_eq(I, a, b, need=None):
 
 
 def roundtrip(run, repo, label, specs, write_date=False, as_dict=False, fmt='list', supp=None, order=None,
-              to_file=False):
+              to_file=False, sign=None):
     m = repo.module(TD)
     wfn, rfn = m.functions.get('write_thermdat'), m.functions.get('read_thermdat')
     if wfn is None or rfn is None:
         raise AnchorError('write_thermdat/read_thermdat not found')
     I = Interp(repo, order=RankOrder({}, const_ranks=True))
     I.track_print_precision = True      # what is read back is the number as printed, not the number that was printed
+    I.sign_policy = sign                # None: any sign; 'nonnegative' / 'negative': all numbers of this run
     built = []
 
     def nasa_stub(I_, fr, args, kwargs):
@@ -409,6 +410,10 @@ def check(run, repo):
             ('zero count among five composition entries', [(8, 5, [(1, 1), (1, 3), (2, 2), (1, 0), (1, 1)], (5, 6, 6))], {}),
             ('zero count first of five composition entries', [(8, 5, [(2, 0), (1, 3), (2, 2), (1, 1), (1, 2)], (5, 6, 6))], {}),
             ('notes longer than the field', [(8, 12, [(1, 1), (2, 2)], (5, 6, 6)), (3, 20, [(2, 1)], (3, 5, 4))], {}),
+            # written to a file, first with the sign of every number fixed (a blank sign column is a blank like any
+            # other), then with numbers of any sign
+            ('written to a file, numbers not negative', multi, {'to_file': True, 'sign': 'nonnegative'}),
+            ('written to a file, numbers negative', multi[:1], {'to_file': True, 'sign': 'negative'}),
             ('written to a file', multi, {'to_file': True}),
             ('written to a file with date', multi, {'to_file': True, 'write_date': True})]
     for label, specs, kw_ in more:
@@ -488,6 +493,10 @@ MUTANTS = [
     {'name': 'elements dictionary shared between species', 'expect': ('TABLE.readback', 'read_thermdat'),
      'edits': [(T_, "    nasa_data['elements'] = {}\n", "    nasa_data['elements'] = _ELEMENTS\n"),
                (T_, "def _read_line1(line):", "_ELEMENTS = {}\n\n\ndef _read_line1(line):")]},
+    {'name': 'file branch strips every line (the blank sign column of a non-negative coefficient goes)', 'expect': ('TABLE', ''),
+     'edits': [(T_, "            f_ptr.write(lines_out)", "            for line in lines_out.splitlines():\n                f_ptr.write(line.strip() + newline)")]},
+    {'name': 'dictionary input written in alphabetical order', 'expect': ('TABLE.readback', 'read_thermdat'),
+     'edits': [(T_, "        nasa_iter = nasa_species.values()", "        nasa_iter = [nasa_species[key] for key in sorted(nasa_species)]")]},
 ]
 EQUIV = [
     {'name': 'reader positions computed', 'edits': [(T_, "    positions = [0, 15, 30, 45]\n    offset = 15\n\n    j = 3", "    offset = 15\n    positions = [offset * k for k in range(4)]\n\n    j = 3")]},
